@@ -62,9 +62,8 @@ func (s *sim) endStateOracle(prefix string) (sig, msg string) {
 		return prefix + "-writable-set", fmt.Sprintf("writable hosts %v, recorded master %q: want exactly the recorded master", writable, m)
 	}
 	mh := s.w.Hosts[m]
-	if mh.Offline {
-		return prefix + "-master-offline", fmt.Sprintf("recorded master %s is still in offline mode", m)
-	}
+	// (offline mode of the master is not part of C02/C07: a master marked for recovery is
+	// deliberately kept offline, see C17)
 	for _, n := range s.opts.HA {
 		if n == m {
 			continue
